@@ -29,7 +29,7 @@ def _has_binder(t):
         if x.get_id() in seen:
             continue
         seen.add(x.get_id())
-        if z3.is_quantifier(x) or z3.is_var(x):
+        if z3.is_quantifier(x) or z3.is_var(x) or (z3.is_app(x) and x.decl().kind() == z3.Z3_OP_ITE):
             return True
         stack.extend(x.children())
     return False
